@@ -2,7 +2,9 @@ package checks
 
 import (
 	"bytes"
+	"crypto/aes"
 	"fmt"
+	"math/rand"
 	"strings"
 
 	"tglib"
@@ -91,6 +93,22 @@ func runC05(c *fw.Case) (o fw.Outcome) {
 			sqn[i] = want[i] ^ ak0[i]
 		}
 		o.Tag("kdf-inputs-read-as-text")
+	}
+	if c.Idx%32 == 21 {
+		// a RAND for which a whole MILENAGE output is ZERO for this subscriber: AK (f5, 48 bits), CK (f3) or IK (f4). No
+		// search finds one (2^-48 .. 2^-128 per RAND); it is constructed by running the block cipher backwards from the output.
+		// Zero is a legal value of a key like any other.
+		which := []string{"ak", "ck", "ik", "ak"}[(c.Idx/32)%4]
+		if z := zeroOutputRAND(k, opc, which, r); z != nil {
+			rnd = z
+			_, ck0, ik0, ak0, _ := sec.F2345(k, opc, rnd)
+			got := map[string][]byte{"ak": ak0, "ck": ck0, "ik": ik0}[which]
+			if !bytes.Equal(got, make([]byte, len(got))) {
+				o.Inconcl("harness: constructed RAND does not give an all-zero %s under the reference (%x)", which, got)
+				return
+			}
+			o.Tag("rand-with-all-zero-" + which)
+		}
 	}
 	autn := sec.GenerateAUTN(k, opc, rnd, sqn, amf)
 	mcc := digits(r, 3)
@@ -229,4 +247,43 @@ func sameOr(a, b []byte) string {
 		return "the same"
 	}
 	return "another"
+}
+
+// zeroOutputRAND inverts MILENAGE (TS 35.206: TEMP = E_K(RAND xor OPc); OUTn = E_K(rot(TEMP xor OPc, rn) xor cn) xor OPc
+// with r2 = 0, r3 = 32, r4 = 64 bits and c2 = ..01, c3 = ..02, c4 = ..04) for an output whose AK (first six octets of
+// OUT2), CK (OUT3) or IK (OUT4) is zero. The standard library's AES does the backward steps; the verdict on the result
+// stays with ref/sec.
+func zeroOutputRAND(k, opc []byte, which string, r *rand.Rand) []byte {
+	blk, err := aes.NewCipher(k)
+	if err != nil {
+		return nil
+	}
+	out := make([]byte, 16)
+	rot, cn := 0, byte(1)
+	switch which {
+	case "ak":
+		copy(out[6:], rbytes(r, 10)) // the rest of OUT2 (RES among it) is free
+	case "ck":
+		rot, cn = 4, 2
+	case "ik":
+		rot, cn = 8, 4
+	}
+	x := make([]byte, 16)
+	for i := range x {
+		x[i] = out[i] ^ opc[i]
+	}
+	blk.Decrypt(x, x) // = rot(TEMP xor OPc, r) xor c
+	x[15] ^= cn
+	t := make([]byte, 16)
+	for i := range t { // undo the rotation to the left by rot octets
+		t[(i+rot)%16] = x[i]
+	}
+	for i := range t {
+		t[i] ^= opc[i] // TEMP
+	}
+	blk.Decrypt(t, t)
+	for i := range t {
+		t[i] ^= opc[i]
+	}
+	return t
 }
